@@ -270,13 +270,18 @@ def exec_op(ctx: Ctx, op: dict, rec: dict) -> Any:
             # own writer ("garbage") at the first append_files() call, which raises; the caller finishes the file and
             # calls append_files() again on the SAME transaction
             full = os.path.join(t.storage.base_path, rel) if hasattr(t.storage, "base_path") else None
-            if full is not None and op.get("raw"):
-                if op["late"] == "missing":
-                    seams.SIM_OS.remove(full)
+            if True:
+                if full is not None and op.get("raw"):
+                    if op["late"] == "missing":
+                        seams.SIM_OS.remove(full)
+                    else:
+                        f = seams.sim_open(full, "wb")
+                        f.write(b"PAR1 not a parquet file yet")
+                        f.close()
+                elif op["late"] == "missing":
+                    t.storage.delete_file(rel)
                 else:
-                    f = seams.sim_open(full, "wb")
-                    f.write(b"PAR1 not a parquet file yet")
-                    f.close()
+                    t.storage.write_file(rel, b"PAR1 not a parquet file yet")
                 try:
                     tx.append_files([df])
                     res["late_accepted"] = True
@@ -460,7 +465,7 @@ def stage_prebuilt(t, sim, op: dict):
     name = (op.get("name") or ("pre_" + op["tag"].replace(".", "_"))) + ".parquet"
     if op.get("dir"):
         name = f"{op['dir']}/{name}"
-    if op.get("raw"):
+    if op.get("raw") and hasattr(t.storage, "base_path"):
         # written the way a user's own writer does it (pq.write_table / open+write): no fsync of the file, none of its
         # directory - goes through the os seam so that the durability shadow sees it (local backend only)
         full = os.path.join(t.storage.base_path if hasattr(t.storage, "base_path") else ctx_root(t), "data", name)
